@@ -1418,6 +1418,7 @@ func getHashCode(n NodeNavigator) uint64 {
 	// is written first and ends at the first '/', so that a name or value
 	// containing '-' and digits can never be read as part of it.
 	var name string
+	attr := n.NodeType() == AttributeNode
 	switch n.NodeType() {
 	case AttributeNode, TextNode, CommentNode:
 		// https://github.com/antchfx/htmlquery/issues/25
@@ -1442,6 +1443,11 @@ func getHashCode(n NodeNavigator) uint64 {
 		}
 		sb.WriteByte('-')
 		sb.WriteString(strconv.Itoa(d))
+	}
+	if attr {
+		// An attribute has the position path of the first child of its
+		// element; a navigator may report a text node's data as its name.
+		sb.WriteByte('@')
 	}
 	sb.WriteByte('/')
 	sb.WriteString(name)
